@@ -46,10 +46,11 @@ fn run_case(limreq: u64, progs: &[Vec<Op>], sched: &[usize]) -> Run {
     let b = Arc::new(MemoryBudget::with_limit(limreq as usize));
     let n = progs.len();
     let mut s = Scheduler::new(n);
-    // The unchanged allocate / release never block (lock-free), so a step always ends at a hook
-    // site or at the end of the program; the scheduler's 60 ms "blocked" verdict would only ever
-    // be a false one (observed with the machine at load 180), hence the long timeout.
-    Arc::get_mut(&mut s).expect("fresh scheduler").block_timeout = std::time::Duration::from_secs(30);
+    // Verdict "blocked" after 30 ms; it is only accepted where blocking is possible at all (the
+    // thread is parked at site 99 = in front of allocate's mutex while another thread is parked
+    // inside the critical section); everywhere else the step is waited for (a slow thread on a
+    // loaded machine is not a blocked one).
+    Arc::get_mut(&mut s).expect("fresh scheduler").block_timeout = std::time::Duration::from_millis(30);
     s.install();
     let results: Vec<Arc<Mutex<Vec<i128>>>> = (0..n).map(|_| Arc::new(Mutex::new(vec![]))).collect();
     let mut hs = vec![];
@@ -91,14 +92,73 @@ fn run_case(limreq: u64, progs: &[Vec<Op>], sched: &[usize]) -> Run {
     s.wait_all_started();
     let mut exec: Vec<usize> = vec![];
     let mut obs: Vec<Obs> = vec![];
+    // bookkeeping that only decides how long to wait (never what is reported)
+    let mut last_code: Vec<i64> = vec![0; n];
+    let mut blocked: Vec<usize> = vec![];
+    let inside = |c: i64| c == 100 || c == 101 || c == 102;
+    let wait_arrival = |t: usize, max_ms: u64| -> Option<i64> {
+        let deadline = std::time::Instant::now() + std::time::Duration::from_millis(max_ms);
+        loop {
+            match s.state(t) {
+                TState::AtSite(site) => return Some(site as i64),
+                TState::Finished => return Some(1),
+                _ => {}
+            }
+            if std::time::Instant::now() >= deadline {
+                return None;
+            }
+            std::thread::sleep(std::time::Duration::from_micros(200));
+        }
+    };
     let mut do_step = |t: usize| {
         let o = s.step(t);
-        let code = match o {
+        let mut code = match o {
             StepOutcome::Skipped => 0,
             StepOutcome::Finished => 1,
             StepOutcome::Blocked => 2,
             StepOutcome::Reached(site) => site as i64,
         };
+        if code == 2 {
+            let plausible = last_code[t] == 99 && (0..n).any(|u| u != t && inside(last_code[u]));
+            if !plausible {
+                if let Some(c) = wait_arrival(t, 30_000) {
+                    code = c;
+                }
+            }
+            if code == 2 {
+                blocked.push(t);
+            }
+        }
+        // did this step leave allocate's critical section?  then a blocked thread gets the mutex
+        let left = inside(last_code[t]) && !(inside(code) || code == 2 || code == 0);
+        if code != 0 {
+            last_code[t] = code;
+        }
+        let mut resumed: i64 = -1;
+        let mut resumed_site: i64 = 0;
+        if !blocked.is_empty() && code != 2 {
+            let max_ms = if left { 30_000 } else { 0 };
+            let deadline = std::time::Instant::now() + std::time::Duration::from_millis(max_ms);
+            'w: loop {
+                for (i, &u) in blocked.iter().enumerate() {
+                    if let TState::AtSite(site) = s.state(u) {
+                        resumed = u as i64;
+                        resumed_site = site as i64;
+                        blocked.remove(i);
+                        break 'w;
+                    }
+                }
+                if std::time::Instant::now() >= deadline {
+                    break;
+                }
+                std::thread::sleep(std::time::Duration::from_micros(200));
+            }
+            if resumed >= 0 {
+                last_code[resumed as usize] = resumed_site;
+            }
+        }
+        // code + 1000 * (resumed thread + 1) [+ 500 if it did not resume at site 100]
+        let code = code + 1000 * (resumed + 1) + if resumed >= 0 && resumed_site != 100 { 500 } else { 0 };
         EXPECT_PANIC.store(true, std::sync::atomic::Ordering::Relaxed);
         let st = catch_unwind(AssertUnwindSafe(|| b.stats()));
         EXPECT_PANIC.store(false, std::sync::atomic::Ordering::Relaxed);
@@ -108,21 +168,33 @@ fn run_case(limreq: u64, progs: &[Vec<Op>], sched: &[usize]) -> Run {
         let done = results[t].lock().unwrap().len();
         exec.push(t);
         obs.push(Obs { code, done, cnts });
+        code
     };
     for &t in sched {
         do_step(t);
     }
     // run everybody to completion, round robin; these steps are part of the executed schedule
     let mut guard = 0;
+    let mut idle_rounds = 0;
     while !s.all_finished() {
+        let mut progressed = false;
         for id in 0..n {
             if s.state(id) != TState::Finished {
-                do_step(id);
+                let c = do_step(id);
+                if c % 1000 != 0 && c % 1000 != 2 {
+                    progressed = true;
+                }
                 guard += 1;
             }
         }
-        if guard > 5000 {
-            eprintln!("c39: threads do not finish: {} states {:?} last obs {:?}", replay_line(limreq, progs, sched), (0..n).map(|i| s.state(i)).collect::<Vec<_>>(), obs.iter().rev().take(8).map(|o| (o.code, o.done)).collect::<Vec<_>>());
+        if !progressed {
+            idle_rounds += 1;
+            std::thread::sleep(std::time::Duration::from_millis(20));
+        } else {
+            idle_rounds = 0;
+        }
+        if guard > 5000 || idle_rounds > 200 {
+            eprintln!("c39: threads do not finish: {} states {:?} obs {:?}", replay_line(limreq, progs, sched), (0..n).map(|i| s.state(i)).collect::<Vec<_>>(), obs.iter().take(24).map(|o| (o.code, o.done)).collect::<Vec<_>>());
             std::process::exit(3);
         }
     }
@@ -240,7 +312,10 @@ fn judge(progs: &[Vec<Op>], r: &Run) -> Verdict {
     let mut in_call = vec![false; n];
     for (i, &t) in r.sched.iter().enumerate() {
         let o = &r.obs[i];
-        if in_call.iter().enumerate().any(|(u, c)| *c && u != t) && o.code != 0 {
+        // code = outcome + 1000 * (resumed thread + 1) [+ 500]
+        let base = o.code % 500;
+        let resumed: Option<usize> = if o.code >= 1000 { Some((o.code / 1000 - 1) as usize) } else { None };
+        if in_call.iter().enumerate().any(|(u, c)| *c && u != t) && base != 0 && base != 2 {
             v.overlap = true;
         }
         for j in dones[t]..o.done {
@@ -297,22 +372,37 @@ fn judge(progs: &[Vec<Op>], r: &Run) -> Verdict {
                 }
             }
         }
-        if o.code == 100 {
+        if base == 100 {
             // a new loop iteration of allocate: everything is (re)loaded after this point
             grew[t] = [false; 5];
         }
         dones[t] = o.done;
-        in_call[t] = o.code >= 100;
+        if base != 0 && base != 2 {
+            in_call[t] = base >= 99;
+        }
+        if let Some(u) = resumed {
+            if u < n {
+                grew[u] = [false; 5];
+                in_call[u] = true;
+            }
+        }
     }
     v
 }
 
 // ---------------------------------------------------------------- generators
+/// does allocate have the hook site 99 (in front of a mutex)?  probed once on the implementation
+static HAS_SITE_99: std::sync::atomic::AtomicBool = std::sync::atomic::AtomicBool::new(false);
+fn probe_sites() {
+    let r = run_case(4 * M, &[vec![Op::A(0, 1)]], &[0]);
+    HAS_SITE_99.store(r.obs.first().map(|o| o.code % 500) == Some(99), std::sync::atomic::Ordering::Relaxed);
+}
 fn nominal_steps(p: &[Op]) -> usize {
+    let a = if HAS_SITE_99.load(std::sync::atomic::Ordering::Relaxed) { 4 } else { 3 };
     1 + p
         .iter()
         .map(|o| match *o {
-            Op::A(_, n) => if n == 0 { 0 } else { 3 },
+            Op::A(_, n) => if n == 0 { 0 } else { a },
             Op::R(_, n) | Op::G(_, _, n) => if n == 0 { 0 } else { 1 },
         })
         .sum::<usize>()
@@ -508,6 +598,7 @@ fn main() {
             eprintln!("c39 harness panic: {}", info);
         }
     }));
+    probe_sites();
     match a.mode.as_str() {
         "gen" => gen(&a),
         "search" => search(&a),
@@ -551,7 +642,7 @@ fn gen(a: &Args) {
         if r.results.iter().flatten().any(|x| *x == -4) { panics += 1; }
         // a CAS retry shows as a thread reaching site 100 / 112 twice for one call: more steps than nominal
         let nominal: usize = progs.iter().map(|p| nominal_steps(p)).sum();
-        if r.obs.iter().filter(|o| o.code != 0).count() > nominal { retries += 1; }
+        if r.obs.iter().filter(|o| o.code % 500 != 0 && o.code % 500 != 2).count() > nominal { retries += 1; }
         // non-trivial: calls of two threads overlapped and the budget mattered
         let nontrivial = v.overlap && (any_err || v.peak >= r.lim / 2 || !v.ok);
         w.push(case_term(limreq, &progs, &r), replay_line(limreq, &progs, &sc), nontrivial, kind);
